@@ -458,12 +458,15 @@ Proof.
   - discriminate.
 Qed.
 
+(** the branch condition of [missing_range] *)
+Definition wanted (s : slot) : bool := is_missing s && negb (c_clen (s_chunk s) =? 0).
+
 Lemma mr_mono : forall sl maxr i off last cnt req c,
   missing_range maxr i off last cnt sl = (req, c) -> cnt <= c.
 Proof.
   induction sl as [|s sl IH]; intros maxr i off last cnt req c; cbn [missing_range].
   - intros H; inversion H; lia.
-  - destruct (is_missing s).
+  - destruct (is_missing s && negb (c_clen (s_chunk s) =? 0)).
     + set (cnt' := if match last with Some e => off <=? e | None => false end then cnt else cnt + 1).
       assert (cnt <= cnt') by (subst cnt'; destruct (match last with Some e => off <=? e | None => false end); lia).
       destruct (maxr <=? cnt').
@@ -475,11 +478,11 @@ Qed.
 
 Lemma mr_pos : forall sl maxr i off last cnt req c,
   missing_range maxr i off last cnt sl = (req, c) ->
-  (last = None \/ 1 <= cnt) -> missing_idx i sl <> [] -> 1 <= c.
+  (last = None \/ 1 <= cnt) -> req <> [] -> 1 <= c.
 Proof.
-  induction sl as [|s sl IH]; intros maxr i off last cnt req c; cbn [missing_range missing_idx].
-  - intros _ _ H. elim H. reflexivity.
-  - destruct (is_missing s).
+  induction sl as [|s sl IH]; intros maxr i off last cnt req c; cbn [missing_range].
+  - intros E _ H. inversion E; subst. elim H. reflexivity.
+  - destruct (is_missing s && negb (c_clen (s_chunk s) =? 0)).
     + intros E L _.
       set (cnt' := if match last with Some e => off <=? e | None => false end then cnt else cnt + 1) in *.
       assert (1 <= cnt') as P.
@@ -498,7 +501,7 @@ Lemma mr_bound : forall sl maxr i off last cnt req c,
 Proof.
   induction sl as [|s sl IH]; intros maxr i off last cnt req c; cbn [missing_range].
   - intros H L; inversion H; lia.
-  - destruct (is_missing s).
+  - destruct (is_missing s && negb (c_clen (s_chunk s) =? 0)).
     + set (cnt' := if match last with Some e => off <=? e | None => false end then cnt else cnt + 1).
       assert (cnt' <= cnt + 1) by (subst cnt'; destruct (match last with Some e => off <=? e | None => false end); lia).
       destruct (maxr <=? cnt') eqn:St.
@@ -512,31 +515,52 @@ Qed.
 Lemma place_nil i sl : place [] i sl = (sl, true).
 Proof. destruct sl; reflexivity. Qed.
 
-(** The served request is a non-empty prefix (in file order) of the missing chunks; the
-    callbacks make exactly these valid and leave everything else as it was. *)
-Lemma mr_place : forall sl maxr i off last cnt req c,
+(** indices produced by [missing_range] are those of missing slots, not below [i] *)
+Lemma mr_ge : forall sl maxr i off last cnt req c j,
+  missing_range maxr i off last cnt sl = (req, c) -> In j req -> (i <= j)%nat.
+Proof.
+  induction sl as [|s sl IH]; intros maxr i off last cnt req c j; cbn [missing_range].
+  - intros E; inversion E; subst. intros [].
+  - destruct (is_missing s && negb (c_clen (s_chunk s) =? 0)).
+    + destruct (maxr <=? _).
+      * intros E; inversion E; subst. intros [<-|[]]. lia.
+      * destruct (missing_range maxr (S i) _ _ _ sl) as [r c'] eqn:R.
+        intros E; inversion E; subst. intros [<-|H]; [lia|]. apply (IH _ _ _ _ _ _ _ _ R) in H. lia.
+    + intros E H. apply (IH _ _ _ _ _ _ _ _ E) in H. lia.
+Qed.
+
+(** A zero-length chunk is never missing ([zvalid]: it is flagged valid).  This is what
+    the validity scan establishes for a valid B unless it invalidates every chunk. *)
+Definition zvalid (s : slot) : Prop := c_clen (s_chunk s) = 0 -> s_flag s = Valid.
+
+(** General form: the callbacks make exactly the requested chunks valid, leave everything
+    else as it was, and the number of missing chunks drops by the length of the request. *)
+Lemma mr_place_gen : forall sl maxr i off last cnt req c,
   missing_range maxr i off last cnt sl = (req, c) ->
   Forall good sl -> Forall nofail sl ->
   exists sl', place req i sl = (sl', true) /\ Forall good sl' /\ Forall nofail sl' /\
-              shape sl' = shape sl /\ missing_idx i sl = req ++ missing_idx i sl' /\
-              (missing_idx i sl <> [] -> req <> []).
+              shape sl' = shape sl /\ (missing_count sl' + length req = missing_count sl)%nat /\
+              (Forall zvalid sl -> Forall zvalid sl').
 Proof.
   induction sl as [|s sl IH]; intros maxr i off last cnt req c; cbn [missing_range].
   - intros E _ _. inversion E; subst. exists []. cbn. repeat split; auto.
   - intros E G NF. inversion G as [|? ? G1 G2]; subst. inversion NF as [|? ? N1 N2]; subst.
-    cbn [missing_idx]. destruct (is_missing s) eqn:M.
-    + set (cnt' := if match last with Some e => off <=? e | None => false end then cnt else cnt + 1) in *.
+    unfold missing_count in *. cbn [filter].
+    destruct (is_missing s && negb (c_clen (s_chunk s) =? 0)) eqn:Wd.
+    + apply andb_true_iff in Wd. destruct Wd as [M _]. rewrite M.
+      set (cnt' := if match last with Some e => off <=? e | None => false end then cnt else cnt + 1) in *.
       destruct G1 as [Gs Gv]. pose proof Gs as Gs'. unfold srv_ok in Gs'.
       assert (good (set_cur s (s_srv s) Valid)) as Gn by (split; [exact Gs | intros _; exact Gs]).
       assert (nofail (set_cur s (s_srv s) Valid)) as Nn by (unfold nofail; cbn; discriminate).
       assert (is_missing (set_cur s (s_srv s) Valid) = false) as Mn by reflexivity.
+      assert (zvalid (set_cur s (s_srv s) Valid)) as Zn by (intros _; reflexivity).
       destruct (maxr <=? cnt').
       * inversion E; subst.
         exists (set_cur s (s_srv s) Valid :: sl).
         cbn [Update.place]. rewrite Nat.eqb_refl, Gs', place_nil.
         split; [reflexivity|]. split; [constructor; assumption|]. split; [constructor; assumption|].
-        split; [reflexivity|].
-        split; [cbn [missing_idx app]; rewrite Mn; reflexivity | discriminate].
+        split; [reflexivity|]. cbn [filter]. rewrite Mn. cbn [length].
+        split; [lia|]. intros Z. inversion Z; subst. constructor; assumption.
       * destruct (missing_range maxr (S i) _ _ cnt' sl) as [r c'] eqn:R.
         inversion E; subst.
         destruct (IH _ _ _ _ _ _ _ R G2 N2) as [sl' [P1 [P2 [P3 [P4 [P5 P6]]]]]].
@@ -544,7 +568,8 @@ Proof.
         cbn [Update.place]. rewrite Nat.eqb_refl, Gs', P1.
         split; [reflexivity|]. split; [constructor; assumption|]. split; [constructor; assumption|].
         split; [unfold shape in *; cbn [map set_cur s_chunk s_srv]; f_equal; exact P4|].
-        split; [cbn [missing_idx app]; rewrite Mn; f_equal; exact P5 | discriminate].
+        cbn [filter]. rewrite Mn. cbn [length].
+        split; [lia|]. intros Z. inversion Z; subst. constructor; [assumption | apply P6; assumption].
     + destruct (IH _ _ _ _ _ _ _ E G2 N2) as [sl' [P1 [P2 [P3 [P4 [P5 P6]]]]]].
       exists (s :: sl').
       split.
@@ -552,11 +577,58 @@ Proof.
         - rewrite place_nil in P1. inversion P1; subst. reflexivity.
         - assert (Nat.eqb r i = false) as Ne.
           { apply Nat.eqb_neq. intro X. subst r.
-            assert (In i (missing_idx (S i) sl)) as Hin by (rewrite P5; left; reflexivity).
-            apply missing_idx_ge in Hin. lia. }
+            pose proof (mr_ge _ _ _ _ _ _ _ _ i E (or_introl eq_refl)). lia. }
           rewrite Ne, P1. reflexivity. }
       split; [constructor; assumption|]. split; [constructor; assumption|].
       split; [unfold shape in *; cbn [map]; f_equal; exact P4|].
+      cbn [filter]. split.
+      * destruct (is_missing s); cbn [length]; lia.
+      * intros Z. inversion Z; subst. constructor; [assumption | apply P6; assumption].
+Qed.
+
+(** With no zero-length chunk missing, the request is a non-empty prefix (in file order) of
+    the missing chunks. *)
+Lemma mr_place : forall sl maxr i off last cnt req c,
+  missing_range maxr i off last cnt sl = (req, c) ->
+  Forall good sl -> Forall nofail sl -> Forall zvalid sl ->
+  exists sl', place req i sl = (sl', true) /\
+              missing_idx i sl = req ++ missing_idx i sl' /\
+              (missing_idx i sl <> [] -> req <> []).
+Proof.
+  induction sl as [|s sl IH]; intros maxr i off last cnt req c; cbn [missing_range].
+  - intros E _ _ _. inversion E; subst. exists []. cbn. auto.
+  - intros E G NF ZV. inversion G as [|? ? G1 G2]; subst. inversion NF as [|? ? N1 N2]; subst.
+    inversion ZV as [|? ? Z1 Z2]; subst.
+    cbn [missing_idx]. destruct (is_missing s) eqn:M; cbn [andb] in E.
+    + assert (negb (c_clen (s_chunk s) =? 0) = true) as NZ.
+      { destruct (c_clen (s_chunk s) =? 0) eqn:Z; [|reflexivity]. apply N.eqb_eq in Z.
+        specialize (Z1 Z). unfold is_missing in M. rewrite Z1 in M. discriminate. }
+      rewrite NZ in E.
+      set (cnt' := if match last with Some e => off <=? e | None => false end then cnt else cnt + 1) in *.
+      destruct G1 as [Gs Gv]. pose proof Gs as Gs'. unfold srv_ok in Gs'.
+      assert (is_missing (set_cur s (s_srv s) Valid) = false) as Mn by reflexivity.
+      destruct (maxr <=? cnt').
+      * inversion E; subst.
+        exists (set_cur s (s_srv s) Valid :: sl).
+        cbn [Update.place]. rewrite Nat.eqb_refl, Gs', place_nil.
+        split; [reflexivity|].
+        split; [cbn [missing_idx app]; rewrite Mn; reflexivity | discriminate].
+      * destruct (missing_range maxr (S i) _ _ cnt' sl) as [r c'] eqn:R.
+        inversion E; subst.
+        destruct (IH _ _ _ _ _ _ _ R G2 N2 Z2) as [sl' [P1 [P5 P6]]].
+        exists (set_cur s (s_srv s) Valid :: sl').
+        cbn [Update.place]. rewrite Nat.eqb_refl, Gs', P1.
+        split; [reflexivity|].
+        split; [cbn [missing_idx app]; rewrite Mn; f_equal; exact P5 | discriminate].
+    + destruct (IH _ _ _ _ _ _ _ E G2 N2 Z2) as [sl' [P1 [P5 P6]]].
+      exists (s :: sl').
+      split.
+      { destruct req as [|r req']; cbn [Update.place].
+        - rewrite place_nil in P1. inversion P1; subst. reflexivity.
+        - assert (Nat.eqb r i = false) as Ne.
+          { apply Nat.eqb_neq. intro X. subst r.
+            pose proof (mr_ge _ _ _ _ _ _ _ _ i E (or_introl eq_refl)). lia. }
+          rewrite Ne, P1. reflexivity. }
       cbn [missing_idx]. rewrite M. split; [exact P5 | exact P6].
 Qed.
 
@@ -576,53 +648,72 @@ Proof.
     rewrite IH, app_assoc; reflexivity.
 Qed.
 
+(** The loop in general: it ends - within the fuel, never indexing outside the back-off
+    table - either regularly (all chunks valid, final validation run) or in [EmptyRange],
+    and the latter only if a zero-length chunk is missing ([~ Forall zvalid]). In the
+    regular case the served requests are the missing chunks, in file order, each once. *)
 Lemma loop_ok : forall fuel B srv hdr extra maxr ra sl ev,
   1 <= srv -> Forall good sl -> Forall nofail sl ->
   (ra < length range_attempt)%nat ->
   (forall a, tbl ra = Some a -> a <= 1 -> maxr <= 1) ->
   (missing_count sl + (length range_attempt - ra) <= fuel)%nat ->
-  exists sl_end ev',
-    dl_loop fuel B srv hdr extra maxr ra sl ev = finish B hdr sl_end (ev ++ ev') /\
+  let R := dl_loop fuel B srv hdr extra maxr ra sl ev in
+  (o_status R = EmptyRange /\ Forall good (t_slots (o_target R)) /\ ~ Forall zvalid sl) \/
+  (exists sl_end ev',
+    R = finish B hdr sl_end (ev ++ ev') /\
     Forall good sl_end /\ Forall (fun s => s_flag s = Valid) sl_end /\ shape sl_end = shape sl /\
-    served_chunks ev' = missing_idx 0 sl /\
-    (forall i, In i (asked_chunks ev') -> In i (missing_idx 0 sl)).
+    (Forall zvalid sl ->
+       served_chunks ev' = missing_idx 0 sl /\
+       (forall i, In i (asked_chunks ev') -> In i (missing_idx 0 sl)))).
 Proof.
-  induction fuel as [|fuel IH]; intros B srv hdr extra maxr ra sl ev Hsrv G NF Hra Inv Hfuel.
-  - assert (missing_count sl = O) as M0 by lia.
+  induction fuel as [|fuel IH]; intros B srv hdr extra maxr ra sl ev Hsrv G NF Hra Inv Hfuel R; subst R.
+  - assert (missing_count sl = O) as M0 by lia. right.
     exists sl, []. cbn [Update.dl_loop]. rewrite M0, app_nil_r.
     split; [reflexivity|]. split; [exact G|]. split; [apply no_missing_all_valid; assumption|].
-    split; [reflexivity|]. rewrite (missing_count_idx sl 0) in M0.
+    split; [reflexivity|]. intros _. rewrite (missing_count_idx sl 0) in M0.
     destruct (missing_idx 0 sl); [|discriminate]. cbn. auto.
   - cbn [Update.dl_loop]. destruct (missing_count sl) as [|n] eqn:M0.
-    + exists sl, []. rewrite app_nil_r.
+    + right. exists sl, []. rewrite app_nil_r.
       split; [reflexivity|]. split; [exact G|]. split; [apply no_missing_all_valid; assumption|].
-      split; [reflexivity|]. rewrite (missing_count_idx sl 0) in M0.
+      split; [reflexivity|]. intros _. rewrite (missing_count_idx sl 0) in M0.
       destruct (missing_idx 0 sl); [|discriminate]. cbn. auto.
     + destruct (missing_range maxr 0 0 None 0 sl) as [req c] eqn:MR.
       assert (missing_idx 0 sl <> []) as Hne.
-      { rewrite (missing_count_idx sl 0) in M0. destruct (missing_idx 0 sl); [discriminate|discriminate]. }
-      pose proof (mr_pos _ _ _ _ _ _ _ _ MR (or_introl eq_refl) Hne) as Cpos.
+      { rewrite (missing_count_idx sl 0) in M0. destruct (missing_idx 0 sl); discriminate. }
+      destruct (mr_place_gen _ _ _ _ _ _ _ _ MR G NF) as [sl' [P1 [P2 [P3 [P4 [P5 PZ]]]]]].
+      destruct req as [|r0 req0].
+      { (* nothing but zero-length chunks is missing *)
+        left. cbn [o_status o_target t_slots]. split; [reflexivity|]. split; [exact G|].
+        intros ZV. destruct (mr_place _ _ _ _ _ _ _ _ MR G NF ZV) as [_ [_ [_ Q]]]. apply (Q Hne). reflexivity. }
+      cbv iota. remember (r0 :: req0) as req eqn:Ereq.
+      assert (req <> []) as Rne by (rewrite Ereq; discriminate).
+      assert ((1 <= length req)%nat) as Rlen by (rewrite Ereq; cbn [length]; lia).
+      clear Ereq r0 req0.
+      pose proof (mr_pos _ _ _ _ _ _ _ _ MR (or_introl eq_refl) Rne) as Cpos.
       pose proof (mr_bound _ _ _ _ _ _ _ _ MR ltac:(lia)) as Cbound.
-      destruct (mr_place _ _ _ _ _ _ _ _ MR G NF) as [sl' [P1 [P2 [P3 [P4 [P5 P6]]]]]].
       destruct (advance_ok (length range_attempt) ra c Hra ltac:(lia)) as [ra1 [A1 [A2 [A3 A4]]]].
-      rewrite A1.
       assert (forall a, tbl ra1 = Some a -> a <= 1 -> maxr <= 1) as Inv1.
       { intros a Ea La. destruct A4 as [-> | [b [Eb Lb]]]; [eauto|].
         rewrite Ea in Eb. inversion Eb; subst. lia. }
+      rewrite A1.
       destruct (c <=? srv) eqn:Sv.
       * (* served *)
         rewrite P1.
         assert (missing_count sl' < missing_count sl)%nat as Dec.
-        { rewrite (missing_count_idx sl 0), (missing_count_idx sl' 0), P5, app_length.
-          specialize (P6 Hne). destruct req; [elim P6; reflexivity|]. cbn [length]. lia. }
-        destruct (IH B srv hdr extra maxr ra1 sl' (ev ++ [Served req c]) Hsrv P2 P3 A3 Inv1 ltac:(lia))
-          as [sl_end [ev' [R1 [R2 [R3 [R4 [R5 R6]]]]]]].
-        exists sl_end, (Served req c :: ev').
-        split; [rewrite R1, <- app_assoc; reflexivity|].
-        split; [exact R2|]. split; [exact R3|]. split; [congruence|].
-        cbn [served_chunks asked_chunks]. split; [rewrite R5, P5; reflexivity|].
-        intros i Hin. rewrite P5. apply in_app_iff. apply in_app_iff in Hin.
-        destruct Hin as [Hin|Hin]; [left; exact Hin | right; apply R6; exact Hin].
+        { lia. }
+        specialize (IH B srv hdr extra maxr ra1 sl' (ev ++ [Served req c]) Hsrv P2 P3 A3 Inv1 ltac:(lia)).
+        cbn zeta in IH.
+        destruct IH as [[S1 [S2 S3]] | [sl_end [ev' [R1 [R2 [R3 [R4 R5]]]]]]].
+        -- left. split; [exact S1|]. split; [exact S2|]. intros ZV. apply S3. apply PZ. exact ZV.
+        -- right. exists sl_end, (Served req c :: ev').
+           split; [rewrite R1, <- app_assoc; reflexivity|].
+           split; [exact R2|]. split; [exact R3|]. split; [congruence|].
+           intros ZV. destruct (R5 (PZ ZV)) as [R6 R7].
+           destruct (mr_place _ _ _ _ _ _ _ _ MR G NF ZV) as [sl'' [Q1 [Q5 _]]].
+           rewrite P1 in Q1. inversion Q1; subst sl''.
+           cbn [served_chunks asked_chunks]. split; [rewrite R6, Q5; reflexivity|].
+           intros i Hin. rewrite Q5. apply in_app_iff. apply in_app_iff in Hin.
+           destruct Hin as [Hin|Hin]; [left; exact Hin | right; apply R7; exact Hin].
       * (* refused *)
         apply N.leb_gt in Sv.
         assert (1 < maxr) as Hm by lia.
@@ -632,16 +723,20 @@ Proof.
         { destruct (N.le_gt_cases a 1) as [L|L]; [|lia]. specialize (Inv1 a Ea L). lia. }
         destruct (tbl_succ _ _ Ea La) as [m Em]. rewrite Em.
         pose proof (tbl_some_lt _ _ Em) as Hs.
-        destruct (IH B srv hdr extra m (S ra1) sl (ev ++ [Refused req c]) Hsrv G NF Hs
+        specialize (IH B srv hdr extra m (S ra1) sl (ev ++ [Refused req c]) Hsrv G NF Hs
                      ltac:(intros a' Ea' La'; rewrite Em in Ea'; inversion Ea'; subst; exact La')
-                     ltac:(lia))
-          as [sl_end [ev' [R1 [R2 [R3 [R4 [R5 R6]]]]]]].
-        exists sl_end, (Refused req c :: ev').
-        split; [rewrite R1, <- app_assoc; reflexivity|].
-        split; [exact R2|]. split; [exact R3|]. split; [exact R4|].
-        cbn [served_chunks asked_chunks]. split; [exact R5|].
-        intros i Hin. apply in_app_iff in Hin.
-        destruct Hin as [Hin|Hin]; [rewrite P5; apply in_app_iff; left; exact Hin | apply R6; exact Hin].
+                     ltac:(lia)).
+        cbn zeta in IH.
+        destruct IH as [[S1 [S2 S3]] | [sl_end [ev' [R1 [R2 [R3 [R4 R5]]]]]]].
+        -- left. auto.
+        -- right. exists sl_end, (Refused req c :: ev').
+           split; [rewrite R1, <- app_assoc; reflexivity|].
+           split; [exact R2|]. split; [exact R3|]. split; [exact R4|].
+           intros ZV. destruct (R5 ZV) as [R6 R7].
+           destruct (mr_place _ _ _ _ _ _ _ _ MR G NF ZV) as [sl'' [_ [Q5 _]]].
+           cbn [served_chunks asked_chunks]. split; [exact R6|].
+           intros i Hin. apply in_app_iff in Hin.
+           destruct Hin as [Hin|Hin]; [rewrite Q5; apply in_app_iff; left; exact Hin | apply R7; exact Hin].
 Qed.
 
 (* ---------------------------------------------------------------------------------- *)
@@ -811,10 +906,37 @@ Proof.
   destruct W as [Hs _]. apply write_prefix_fits; assumption.
 Qed.
 
+(** after the scan of a valid B (not invalidated as a whole), after the copy and after the
+    reset no zero-length chunk is missing *)
+Lemma scan_flags_zvalid : forall sl first,
+  Forall srv_ok sl -> Forall fits sl -> Forall zvalid (scan_flags first sl).
+Proof.
+  induction sl as [|s sl IH]; intros first Hs Hfit; [constructor|].
+  inversion Hs; subst. inversion Hfit; subst. cbn [Update.scan_flags].
+  constructor; [|apply IH; assumption].
+  unfold zvalid. cbn [set_flag s_flag s_chunk]. intros Z. apply scan_flag_zero; assumption.
+Qed.
+
+Lemma copy_reset_zvalid A sl : Forall zvalid sl -> Forall zvalid (reset_failed (copy_chunks A sl)).
+Proof.
+  intros ZV. unfold reset_failed. apply Forall_forall. intros s Hin.
+  apply in_map_iff in Hin. destruct Hin as [s1 [<- Hin]].
+  assert (zvalid s1) as Z1.
+  { destruct A as [a|]; cbn [Update.copy_chunks] in Hin.
+    - apply in_map_iff in Hin. destruct Hin as [s0 [<- Hin]]. rewrite Forall_forall in ZV.
+      specialize (ZV s0 Hin). unfold zvalid in *. destruct (copy_one_shape a s0) as [E1 _]. rewrite E1.
+      intros Z. specialize (ZV Z). unfold Update.copy_one. rewrite ZV. exact ZV.
+    - rewrite Forall_forall in ZV. auto. }
+  unfold zvalid in *. destruct (s_flag s1) eqn:Fl; cbn [set_flag s_chunk s_flag]; intros Z; specialize (Z1 Z);
+    [exact Fl | discriminate Z1 | discriminate Z1].
+Qed.
+
 Lemma update_master A B srv T :
   wf_new B (t_slots T) -> wf_target T ->
   let o := update A B srv T in
   let N := needed A true 0 (t_slots (fetch_header B T)) in
+  (collision /\ Forall good (t_slots (o_target o)) /\
+   (o_status o = EmptyRange \/ exists e, o_status o = Done e)) \/
   exists sl_end (ok : bool),
     o_status o = Done (if ok then 0 else 1) /\
     o_target o = mkT (b_hdr B) sl_end [] /\
@@ -822,13 +944,13 @@ Lemma update_master A B srv T :
     (1 <= srv -> Forall (fun s => s_flag s = Valid) sl_end) /\
     (srv = 0 -> map s_cur sl_end = map s_srv sl_end) /\
     (map s_cur sl_end = map s_srv sl_end -> ok = true) /\
-    (1 <= srv -> collision \/
-                 (served_chunks (o_events o) = N /\ forall i, In i (asked_chunks (o_events o)) -> In i N)).
+    (1 <= srv -> served_chunks (o_events o) = N /\
+                 forall i, In i (asked_chunks (o_events o)) -> In i N).
 Proof.
   intros W Hfit o N. subst o. unfold Update.update.
   destruct (srv =? 0) eqn:S0.
   - (* no range support: whole file *)
-    apply N.eqb_eq in S0.
+    right. apply N.eqb_eq in S0.
     set (sl := map (fun s => set_cur s (s_srv s) Missing) (t_slots T)).
     assert (shape sl = shape (t_slots T)) as Sh.
     { unfold sl, shape. rewrite map_map. reflexivity. }
@@ -860,51 +982,61 @@ Proof.
   - apply N.eqb_neq in S0. assert (1 <= srv) as Hsrv by lia.
     destruct (fetch_header_props B T W Hfit) as [Eh [Sh1 [W1 Fit1]]].
     set (T1 := fetch_header B T) in *.
-    destruct W1 as [Hs1 [Hd1 F1]].
-    pose proof (find_valid_good B (t_slots T1) F1 Hs1 Fit1) as G1.
+    pose proof W1 as [Hs1 Hd1].
+    pose proof (find_valid_good B (t_slots T1) Hs1 Fit1) as G1.
     pose proof (find_valid_shape B (t_slots T1)) as ShF.
     destruct (find_valid B (t_slots T1)) as [all sl1] eqn:FV. cbn [snd] in *.
     destruct all.
     + (* everything already valid *)
-      destruct (find_valid_true _ _ _ FV) as [E1 A1].
+      right. destruct (find_valid_true _ _ _ FV) as [E1 A1].
       exists sl1, true. cbn [o_status o_target o_events served_chunks asked_chunks].
       split; [reflexivity|]. split; [rewrite Eh; reflexivity|]. split; [congruence|].
       split; [exact G1|]. split; [intros _; apply all_valid_spec; exact A1|].
       split; [intros X; lia|]. split; [reflexivity|].
-      intros _. right. subst N sl1. rewrite (needed_all_valid A _ true 0 A1). split; [reflexivity | intros i []].
+      intros _. subst N sl1. rewrite (needed_all_valid A _ true 0 A1). split; [reflexivity | intros i []].
     + destruct (reset_failed_props _ (copy_chunks_good A _ G1)) as [G2 [NF2 Sh2]].
       set (sl2 := reset_failed (copy_chunks A sl1)) in *.
       destruct tbl_0 as [m Em]. rewrite Em.
-      destruct (loop_ok (loop_fuel sl2) B srv (t_hdr T1) (t_extra T1) m 0 sl2 [] Hsrv G2 NF2
+      pose proof (loop_ok (loop_fuel sl2) B srv (t_hdr T1) (t_extra T1) m 0 sl2 [] Hsrv G2 NF2
                   ltac:(apply (tbl_some_lt _ _ Em))
                   ltac:(intros a Ea La; rewrite Em in Ea; inversion Ea; subst; exact La)
                   ltac:(unfold loop_fuel, missing_count; pose proof (filter_len_le is_missing sl2); lia))
-        as [sl_end [ev' [R1 [R2 [R3 [R4 [R5 R6]]]]]]].
-      rewrite R1. cbn [app].
-      destruct (finish_props B (t_hdr T1) sl_end ev' R2 R3) as [ok [sl' [Fi [Vd [V' [G' [Ec' Sh']]]]]]].
-      rewrite Fi. exists sl', ok. cbn [o_status o_target o_events].
-      split; [reflexivity|]. split; [rewrite Eh; reflexivity|].
-      assert (shape sl' = shape (t_slots T)) as ShAll.
-      { rewrite Sh', R4, Sh2, copy_chunks_shape. congruence. }
-      split; [exact ShAll|]. split; [exact G'|]. split; [intros _; exact V'|].
-      split; [intros X; lia|].
-      split.
-      { intros E. pose proof (wf_new_shape B _ _ ShAll W) as W'.
-        assert (shape sl_end = shape sl') as X by congruence.
-        pose proof (wf_new_shape B _ _ X W') as We.
-        assert (map s_cur sl_end = map s_srv sl_end) as Ee.
-        { rewrite <- Ec', E, !shape_srv. congruence. }
-        pose proof (validate_data_true B sl_end We Ee) as Vt. rewrite Vd in Vt. exact Vt. }
-      intros _.
+        as L. cbn zeta in L.
       (* which find_valid branch produced sl1 *)
-      assert (wf_new B (t_slots T1)) as W1' by (split; [exact Hs1|]; split; [exact Hd1 | exact F1]).
       unfold Update.find_valid in FV.
       destruct (all_valid (scan_flags true (t_slots T1))) eqn:AV.
-      * destruct (b_uncomp B) eqn:U; [inversion FV|].
+      * (* each chunk checksum matched but the data digest did not *)
+        destruct (b_uncomp B) eqn:U; [inversion FV|].
         destruct (bytes_eqb _ _) eqn:M; [inversion FV|].
-        left. apply (find_valid_mismatch_collision B (t_slots T1)); assumption.
+        assert collision as C by (apply (find_valid_mismatch_collision B (t_slots T1)); assumption).
+        left. split; [exact C|].
+        destruct L as [[S1 [S2 _]] | [sl_end [ev' [R1 [R2 [R3 _]]]]]].
+        -- split; [exact S2 | left; exact S1].
+        -- rewrite R1.
+           destruct (finish_props B (t_hdr T1) sl_end ([] ++ ev') R2 R3) as [ok [sl' [Fi [_ [_ [G' _]]]]]].
+           rewrite Fi. cbn [o_status o_target t_slots]. split; [exact G' | right; eauto].
       * inversion FV; subst sl1. right.
-        subst N. unfold sl2 in R5, R6. rewrite missing_after_copy in R5, R6. split; [exact R5 | exact R6].
+        assert (Forall zvalid sl2) as ZV2.
+        { apply copy_reset_zvalid. apply scan_flags_zvalid; assumption. }
+        destruct L as [[_ [_ S3]] | [sl_end [ev' [R1 [R2 [R3 [R4 R5]]]]]]]; [elim S3; exact ZV2|].
+        destruct (R5 ZV2) as [R6 R7].
+        rewrite R1. cbn [app].
+        destruct (finish_props B (t_hdr T1) sl_end ev' R2 R3) as [ok [sl' [Fi [Vd [V' [G' [Ec' Sh']]]]]]].
+        rewrite Fi. exists sl', ok. cbn [o_status o_target o_events].
+        split; [reflexivity|]. split; [rewrite Eh; reflexivity|].
+        assert (shape sl' = shape (t_slots T)) as ShAll.
+        { rewrite Sh', R4, Sh2, copy_chunks_shape. congruence. }
+        split; [exact ShAll|]. split; [exact G'|]. split; [intros _; exact V'|].
+        split; [intros X; lia|].
+        split.
+        { intros E. pose proof (wf_new_shape B _ _ ShAll W) as W'.
+          assert (shape sl_end = shape sl') as X by congruence.
+          pose proof (wf_new_shape B _ _ X W') as We.
+          assert (map s_cur sl_end = map s_srv sl_end) as Ee.
+          { rewrite <- Ec', E, !shape_srv. congruence. }
+          pose proof (validate_data_true B sl_end We Ee) as Vt. rewrite Vd in Vt. exact Vt. }
+        intros _. subst N. unfold sl2 in R6, R7. rewrite missing_after_copy in R6, R7.
+        split; [exact R6 | exact R7].
 Qed.
 
 (* ---------------------------------------------------------------------------------- *)
@@ -940,7 +1072,7 @@ Qed.
 Theorem update_converges A B srv T :
   wf_new B (t_slots T) -> wf_target T ->
   let o := update A B srv T in
-  (exists e, o_status o = Done e) /\
+  ((exists e, o_status o = Done e) \/ (o_status o = EmptyRange /\ collision)) /\
   (collision \/
    (o_status o = Done 0 /\
     t_hdr (o_target o) = b_hdr B /\ t_extra (o_target o) = [] /\
@@ -950,8 +1082,11 @@ Theorem update_converges A B srv T :
     fst (validate_data B (t_slots (o_target o))) = true)).
 Proof.
   intros W Hfit o.
-  destruct (update_master A B srv T W Hfit) as [sl_end [ok [M1 [M2 [M3 [M4 [M5 [M6 [M7 M8]]]]]]]]].
-  fold o in M1, M2, M8. split; [eauto|].
+  destruct (update_master A B srv T W Hfit)
+    as [[C [_ St]] | [sl_end [ok [M1 [M2 [M3 [M4 [M5 [M6 [M7 M8]]]]]]]]]].
+  { fold o in St. split; [|left; exact C]. destruct St as [St|St]; [right; auto | left; exact St]. }
+  fold o in M1, M2, M8.
+  split; [left; eauto|].
   assert (map s_cur sl_end = map s_srv sl_end \/ collision) as [E|C]; [| |left; exact C].
   { destruct (N.eq_dec srv 0) as [Z|Z]; [left; apply M6; exact Z|].
     apply good_eq_or_collision; [exact M4 | apply M5; lia]. }
@@ -972,8 +1107,9 @@ Theorem update_requests A B srv T :
   (served_chunks (o_events o) = N /\ (forall i, In i (asked_chunks (o_events o)) -> In i N)).
 Proof.
   intros W Hfit Hsrv o N.
-  destruct (update_master A B srv T W Hfit) as [sl_end [ok [_ [_ [_ [_ [_ [_ [_ M8]]]]]]]]].
-  exact (M8 Hsrv).
+  destruct (update_master A B srv T W Hfit) as [[C _] | [sl_end [ok [_ [_ [_ [_ [_ [_ [_ M8]]]]]]]]]].
+  - left. exact C.
+  - right. exact (M8 Hsrv).
 Qed.
 
 (** T11.1: what a (re)start marks valid really is valid - after the scan, after the copy
@@ -987,11 +1123,14 @@ Theorem restart_valid_sound A B srv T :
              chunk_ok (s_chunk s) (s_cur s) = true).
 Proof.
   intros W Hfit scanned.
-  destruct (fetch_header_props B T W Hfit) as [_ [_ [[Hs1 [_ F1]] Fit1]]].
-  pose proof (find_valid_good B _ F1 Hs1 Fit1) as G1. fold scanned in G1.
+  destruct (fetch_header_props B T W Hfit) as [_ [_ [[Hs1 _] Fit1]]].
+  pose proof (find_valid_good B _ Hs1 Fit1) as G1. fold scanned in G1.
   pose proof (copy_chunks_good A _ G1) as G2.
-  destruct (update_master A B srv T W Hfit) as [sl_end [ok [_ [M2 [_ [M4 _]]]]]].
-  rewrite M2. cbn [t_slots]. rewrite Forall_forall in G1, G2, M4.
+  assert (Forall good (t_slots (o_target (update A B srv T)))) as M4.
+  { destruct (update_master A B srv T W Hfit) as [[_ [Gd _]] | [sl_end [ok [_ [M2 [_ [M4 _]]]]]]].
+    - exact Gd.
+    - rewrite M2. exact M4. }
+  rewrite Forall_forall in G1, G2, M4.
   split; [|split]; intros s Hin V; [destruct (G1 s Hin) | destruct (G2 s Hin) | destruct (M4 s Hin)]; auto.
 Qed.
 
